@@ -80,7 +80,7 @@ pub fn spec() -> PropSpec<Case> {
     assumptions: &[
       "the NpmResolver returns as many results as requirements (documented MUST)",
       "fault -> error entry is asserted for missing / loader-error faults on specifiers the faulted build loads exactly once",
-      "isolation compares modules reachable in the fault-free graph along paths avoiding every faulted specifier and every specifier a fault redirects to; modules whose acceptance depends on the request context (unknown / JSON media type, asset imports) are excluded from the comparison",
+      "isolation compares modules reachable in the fault-free graph along paths avoiding every faulted specifier, every specifier a fault redirects to and what the world serves those as (redirect / alias targets); modules whose acceptance depends on the request context (unknown / JSON media type, asset imports) are excluded from the comparison",
       "a debug assertion of the code under test firing counts as a panic",
     ],
     crash_is_violation: true,
@@ -215,6 +215,7 @@ pub fn check(case: &Case, _tier: Tier) -> Outcome {
       if let Some(t) = target {
         touched.insert(t);
       }
+      close_over_world(&b.world, &mut touched);
       simple.retain(|(s, _)| s != &call.spec || attempt != 0);
       let registry_resource = call.spec.starts_with(crate::registry::REGISTRY)
         || call.spec.starts_with("jsr:");
@@ -270,6 +271,21 @@ fn find_internal(v: &serde_json::Value) -> String {
 
 /// Shared by the sampled and the exhaustive layer. Returns the number of
 /// faults that fired.
+/// A fault that redirects to `t` also reaches whatever the world serves `t`
+/// as: the targets of its redirects and loader-followed aliases (the faulted
+/// request then lands there, possibly under another attribute).
+fn close_over_world(world: &crate::world::World, touched: &mut BTreeSet<String>) {
+  use crate::world::Entry;
+  let mut work: Vec<String> = touched.iter().cloned().collect();
+  while let Some(s) = work.pop() {
+    if let Some(Entry::Redirect { to } | Entry::Alias { to }) = world.entries.get(&s) {
+      if touched.insert(to.clone()) {
+        work.push(to.clone());
+      }
+    }
+  }
+}
+
 fn check_faulted(
   b: &BuildCase,
   g0: &ModuleGraph,
@@ -577,6 +593,7 @@ pub fn extra(tier: Tier, seed: u64) -> ExtraReport {
           if let Some(t) = target {
             touched.insert(t);
           }
+          close_over_world(&b.world, &mut touched);
           let simple = if attempt == 0 && kind <= 1 {
             vec![(call.spec.clone(), kind)]
           } else {
